@@ -494,5 +494,59 @@ class StyleStream(TagStream):
         return out
 
 
+class EntryPointStream(MutatedStream):
+    """The three public entry points — analyze_tags_from_string(source), analyze_tags(name) and
+    analyze_tags_async(name) through a loader — must report the same thing for the same source, well-formed or not.
+    Added after seeded change C21-2 (the async entry point handed the audit an exhausted token generator) was missed:
+    the other streams call analyze_tags_from_string only."""
+
+    name = "entrypoints"
+    has_model = False
+
+    def cases(self, ctx):
+        return MutatedStream.cases(self, ctx)[: ctx.scale(600, 6000)]
+
+    def impl(self, case):
+        import asyncio
+
+        from liquid import DictLoader, Environment, Mode
+
+        src = render(case["tags"], case["style"])
+        env = Environment(extra=(case["env"] == "extra"), tolerance=Mode.STRICT, loader=DictLoader({"t": src}))
+
+        def view(fn):
+            try:
+                a = fn()
+                return {k: sorted((str(n), len(v)) for n, v in getattr(a, k).items()) for k in ("all_tags", "tags", "unclosed_tags", "unexpected_tags", "unknown_tags")}
+            except Exception as e:  # noqa: BLE001
+                return "EXC:" + type(e).__name__
+
+        def run_async():
+            loop = asyncio.new_event_loop()
+            try:
+                return loop.run_until_complete(env.analyze_tags_async("t"))
+            finally:
+                loop.close()
+
+        return {
+            "string": view(lambda: env.analyze_tags_from_string(src, name="t")),
+            "sync": view(lambda: env.analyze_tags("t")),
+            "async": view(run_async),
+        }
+
+    def oracle(self, case, obs):
+        for k in ("sync", "async"):
+            if obs[k] != obs["string"]:
+                what = "raises" if isinstance(obs[k], str) else "report-differs"
+                return (f"entrypoint|{k}|{what}", f"analyze_tags{'_async' if k == 'async' else ''} differs from analyze_tags_from_string on the same source: {obs[k]} vs {obs['string']}")
+        return None
+
+    def nontrivial(self, case, obs):
+        return isinstance(obs["string"], dict) and bool(obs["string"]["unclosed_tags"] or obs["string"]["unexpected_tags"] or obs["string"]["unknown_tags"])
+
+    def tags(self, case, obs):
+        return [case["env"], "alarms" if self.nontrivial(case, obs) else "clean"]
+
+
 def streams(ctx):
-    return [SeqStream(), GrammarStream(), StyleStream(), ValidStream(), MutatedStream()]
+    return [SeqStream(), GrammarStream(), StyleStream(), ValidStream(), MutatedStream(), EntryPointStream()]
